@@ -244,6 +244,7 @@ type xcfg struct {
 	Crashes      int
 	Dups         int
 	Drops        int
+	Partitions   int // network partitions into two groups (set or heal), messages across are lost
 	Reorders     int // fifo mode: deliveries of the second message of a channel before the first
 	MidCrashes   int
 	Reports      int
@@ -306,12 +307,13 @@ type cluster struct {
 	watchApplied map[uint64]bool
 	dropped      map[uint64]bool  // keys of proposals / config changes reported dropped
 	joinKind     map[uint64]kindT // kind a joiner was first added as
+	partition    uint32           // bitmask (by replica position) of group A; 0 = no partition
 	devs         int              // deviations taken (MaxDev mode)
 	spos         int              // next Script item (MaxDev mode)
 	// budgets used
 	used struct {
 		timeouts, heartbeats, checkQuorums, leases, proposals, reads, confChanges, transfers,
-		snapshots, crashes, dups, drops, midCrashes, reports, reorders int
+		snapshots, crashes, dups, drops, midCrashes, reports, reorders, partitions int
 	}
 	// monitors (history variables)
 	leaderOf    map[uint64]uint64     // term -> replica that became leader
@@ -501,7 +503,7 @@ func (c *cluster) warm() {
 	c.cfg = saved
 	c.used = struct {
 		timeouts, heartbeats, checkQuorums, leases, proposals, reads, confChanges, transfers,
-		snapshots, crashes, dups, drops, midCrashes, reports, reorders int
+		snapshots, crashes, dups, drops, midCrashes, reports, reorders, partitions int
 	}{}
 }
 
@@ -575,6 +577,8 @@ const (
 	evSnapStatus
 	evUnreachable
 	evStartJoiner
+	evPartition
+	evHeal
 )
 
 func mkev(kind int, a, b, cc uint32) uint32 { return uint32(kind)<<24 | a<<16 | b<<8 | cc }
@@ -621,6 +625,10 @@ func (c *cluster) describe(e uint32) string {
 		return fmt.Sprintf("Unreachable(leader=%d,to=%d)", a, b)
 	case evStartJoiner:
 		return fmt.Sprintf("StartJoiner(%d)", a)
+	case evPartition:
+		return fmt.Sprintf("Partition(groupA mask=%b)", a)
+	case evHeal:
+		return "HealPartition"
 	}
 	return fmt.Sprint(e)
 }
@@ -664,12 +672,13 @@ func (c *cluster) send(m pb.Message) {
 			return
 		}
 	}
-	// the transport serialises every message: do the same (deep copy, and
-	// process-local fields such as the snapshot's compactor do not travel)
-	data := pb.MustMarshal(&m)
-	m = pb.Message{}
-	pb.MustUnmarshal(&m, data)
+	// the transport serialises a message some time after raft handed it over
+	// (its entry slices alias raft's in-memory log until then): the message is
+	// kept by value here and serialised when it is delivered, see takeMsg
 	c.observeSend(m)
+	if c.crosses(m) {
+		return // lost in the partition
+	}
 	c.seq++
 	it := inflight{m: m, key: msgKey(m), seq: c.seq}
 	i := sort.Search(len(c.msgs), func(i int) bool { return !c.msgLess(c.msgs[i], it) })
@@ -721,12 +730,37 @@ func (c *cluster) chanPos(i int) int {
 	return n
 }
 
+// crosses reports whether m travels between the two sides of the partition.
+func (c *cluster) crosses(m pb.Message) bool {
+	if c.partition == 0 {
+		return false
+	}
+	side := func(id uint64) int {
+		for i, r := range c.reps {
+			if r.id == id {
+				if c.partition&(1<<uint(i)) != 0 {
+					return 1
+				}
+				return 2
+			}
+		}
+		return 0
+	}
+	a, b := side(m.From), side(m.To)
+	return a != 0 && b != 0 && a != b
+}
+
 func (c *cluster) takeMsg(i int, keep bool) pb.Message {
 	m := c.msgs[i].m
 	if !keep {
 		c.msgs = append(c.msgs[:i], c.msgs[i+1:]...)
 	}
-	return m
+	// wire round trip: deep copy, and process-local fields such as a snapshot's
+	// compactor do not travel
+	data := pb.MustMarshal(&m)
+	var out pb.Message
+	pb.MustUnmarshal(&out, data)
+	return out
 }
 
 func (c *cluster) live(r *replica) bool { return r.started && !r.stopped }
@@ -870,6 +904,17 @@ func (c *cluster) enabledAll() []uint32 {
 		for i := range c.msgs {
 			if c.deliverable(i) {
 				out = append(out, mkev(evMidCrash, uint32(i), 0, 0), mkev(evMidCrash, uint32(i), 1, 0))
+			}
+		}
+	}
+	if c.used.partitions < cfg.Partitions && quiet {
+		if c.partition != 0 {
+			out = append(out, mkev(evHeal, 0, 0, 0))
+		} else {
+			n := uint(len(c.reps))
+			for m := uint32(0); m < 1<<(n-1)-1; m++ {
+				// group A always contains the last replica: each split is listed once
+				out = append(out, mkev(evPartition, m|1<<(n-1), 0, 0))
 			}
 		}
 	}
@@ -1249,6 +1294,19 @@ func (c *cluster) Step(e uint32) (msg string) {
 		r := c.byID[uint64(a)]
 		c.used.reports++
 		c.cycle(r, func() error { return r.peer.ReportUnreachableNode(uint64(b)) }, 0)
+	case evPartition:
+		c.used.partitions++
+		c.partition = a
+		var keep []inflight
+		for _, it := range c.msgs {
+			if !c.crosses(it.m) {
+				keep = append(keep, it)
+			}
+		}
+		c.msgs = keep
+	case evHeal:
+		c.used.partitions++
+		c.partition = 0
 	case evStartJoiner:
 		if j := c.byID[uint64(a)]; !j.started && !j.stopped && c.joinable(j) {
 			c.start(j)
